@@ -95,6 +95,13 @@ func c05Source(p c05Params) string {
 		// the code takes the address of a variable by name and reads the cell it names
 		v := []string{"answer", "table", "last"}[r.Intn(3)]
 		a1, a2 := p.nregs-1, r.Intn(p.nregs)
+		// a jump may land on the address load, not between it and the read (the read would then use whatever the
+		// register holds, possibly the address of a code word, whose value is not part of the source's meaning)
+		at := len(body)
+		for _, k := range []int{at + 1, at + 2} {
+			labAt[at] = append(labAt[at], labAt[k]...)
+			delete(labAt, k)
+		}
 		body = append(body, fmt.Sprintf("rset r%d, rom:%s", a1, v), fmt.Sprintf("ro2rri r%d, r%d", a2, a1), fmt.Sprintf("r2o r%d, o0", a2))
 	}
 	if p.iomode != "" && p.nin > 0 {
